@@ -123,11 +123,11 @@ def stratified_permutationtest_mean(group, condition, response,
         conditions = np.unique(condition)
 
     tst = 0.0
-    if len(groups) < 2:
-        raise ValueError('Number of groups must be at least 2.')
-    elif len(groups) == 2:
+    if len(conditions) < 2:
+        raise ValueError('Number of conditions must be at least 2.')
+    elif len(conditions) == 2:
         stat = lambda u: np.fabs(u[0] - u[1])
-    elif len(groups) > 2:
+    elif len(conditions) > 2:
         stat = np.std
     for g in groups:
         gg = group == g
